@@ -217,6 +217,26 @@ def share_terms():
     return out
 
 
+LINREP_PARAMS = ('b_z', 'B2', 'a_fix', 'Z_fix')
+LINREP_VARS = ('x1', 'x2')
+
+
+def linrep_terms():
+    """Every linear utility of 2 or 3 terms over 4 parameters (two free, two fixed) x 2 variables - 576 lists, parameters and
+    variables repeating in every possible way (one parameter multiplying two variables, one variable carrying two parameters,
+    a term written twice) - bare, and as a summand of a product so that another operator reads its value."""
+    opts = [(b, v) for b in LINREP_PARAMS for v in LINREP_VARS]
+    out = []
+    for n in (2, 3):
+        for lst in itertools.product(opts, repeat=n):
+            lin = ('linutil', tuple(lst))
+            rep = len({b for b, _ in lst}) < n
+            out.append((lin, rep))
+            if rep:
+                out.append((('*', ('+', lin, ('num', 0.5)), ('beta', 'b10')), rep))
+    return out
+
+
 def _deepcopy_term(t):
     """Equal term made of fresh tuple objects (so that nothing is shared by identity)."""
     if not isinstance(t, tuple):
@@ -627,6 +647,9 @@ def tasks(tier, seed):
     t.append(dict(part='int_typed'))
     t.append(dict(part='belongs_values'))
     t.append(dict(part='belongs_member_types'))
+    nl = len(linrep_terms())
+    for i in range(0, nl, 120):
+        t.append(dict(part='linrep', lo=i, hi=min(i + 120, nl)))
     for ti in range(len(FIXH_TERMS)):
         t.append(dict(part='fixed_history', term=ti))
     for i in range(len(renumber_cases())):
@@ -673,6 +696,15 @@ def run_task(task):
                     rec.sample(dict(shared=tag, formula=R.show(term)))
                 check_engine(term, rec, tag + ':shared', f'shared:{p}', dict(case, shared=True), share=True)
                 check_engine(_deepcopy_term(term), rec, tag + ':copies', f'copies:{p}', dict(case, shared=False), share=False)
+        elif part == 'linrep':
+            lt = linrep_terms()
+            for idx in range(task['lo'], task['hi']):
+                term, rep = lt[idx]
+                kn = 'linutil:' + ('repeated-parameter' if rep else 'distinct-parameters') + ('' if term[0] == 'linutil' else ':inside-a-product')
+                case = dict(part='linrep', idx=idx)
+                if idx == task['lo']:
+                    rec.sample(dict(linrep=kn, formula=R.show(term)))
+                check_engine(term, rec, f'linrep:{idx}', kn, case)
         elif part == 'renumber':
             _renumber(task['idx'], rec)
         elif part == 'int_typed':
@@ -784,6 +816,10 @@ def replay(case):
                 check_engine(term, rec, tag, f'shared:{p}', case, share=True)
             else:
                 check_engine(_deepcopy_term(term), rec, tag, f'copies:{p}', case)
+        elif part == 'linrep':
+            term, rep = linrep_terms()[case['idx']]
+            check_engine(term, rec, 'replay', 'linutil:' + ('repeated-parameter' if rep else 'distinct-parameters')
+                         + ('' if term[0] == 'linutil' else ':inside-a-product'), case)
         elif part == 'ncdf_tail':
             return run_task(dict(part='ncdf_tail'))['violations']
         elif part == 'int_typed':
